@@ -15,6 +15,7 @@ import (
 	"regexp"
 	"runtime"
 	"runtime/debug"
+	"runtime/pprof"
 	"strconv"
 	"strings"
 	"sync"
@@ -156,6 +157,13 @@ func childMain(args []string) int {
 			logCase(famName + " " + strconv.Itoa(idx) + "\n")
 			k.curIdx = idx
 			runOne(f.ctx, master, idx, f.run)
+		}
+	}
+	if pf := os.Getenv("VERIF_HEAPPROFILE"); pf != "" {
+		if f, err := os.Create(pf); err == nil {
+			runtime.GC()
+			_ = pprof.WriteHeapProfile(f)
+			_ = f.Close()
 		}
 	}
 	if err := k.write(resFile, true); err != nil {
